@@ -255,7 +255,12 @@ def run(ctx):
         kinds[c[0]] = kinds.get(c[0], 0) + 1
         for cause, msg in bad:
             viols.append({"cause": cause, "msg": msg, "case": list(c)})
-    cov = {"evaluations": len(cases), "distinct_nontrivial": len({repr(c) for c in cases}),
+    from vf.checks import c07s
+    ctx.close()
+    sres = c07s.run_s(ctx)
+    viols += sres["violations"]
+    cov = {"schedules": sres["coverage"], "evaluations": len(cases) + sres["coverage"]["executions"],
+           "distinct_nontrivial": len({repr(c) for c in cases}) + sres["coverage"]["distinct_outcome_vectors"],
            "rule": "one evaluation = one /proc/stat content (cpu_times) or one pair of snapshots (both percentage functions) or one "
                    "3-call sequence of Process.cpu_percent in virtual time; distinct by construction",
            "per_dimension": kinds, "delta_values": {"product": D3, "pairs": D6}, "exhaustive": True,
@@ -266,6 +271,9 @@ def run(ctx):
 
 
 def replay(ctx, case):
+    if isinstance(case, dict) and case.get("part") == "S":
+        from vf.checks import c07s
+        return c07s.replay_s(ctx, case)
     w = mk_world(ctx.seed)
     use_world(w)
     c = list(case)
